@@ -11,8 +11,8 @@
    full statement is the Prop Proofs.WriterInvProofs.smiles_invariant_discrete_goal and is NOT proved.  The stereo
    refinement (`_chiral_morgan`) is not covered by theorems: search in harness/checks/C01.py. *)
 From Coq Require Import ZArith List Bool Permutation Sorting.Sorted String.
-From Model Require Import PyBase PyHash Graph Morgan Writer.
-From Proofs Require Import MorganProofs WriterInvProofs WriterStereoExt BfsExt TraverseOrderExt InsertionOrderExt.
+From Model Require Import PyBase PyHash Graph Morgan Writer ChiralMorgan.
+From Proofs Require Import MorganProofs WriterInvProofs WriterStereoExt BfsExt BfsExt2 TraverseOrderExt InsertionOrderExt InsertionOrderExt2 ChiralMorganProofs.
 Import ListNotations.
 Open Scope Z_scope.
 
@@ -553,3 +553,73 @@ Theorem C01_insertion_order_example :
   smiles_text ext_g' ext_w' (fun n => n) exw_o no_stabs = Ok ("CC(C)O"%string, [9; 8; 7; 6]).
 Proof. exact insertion_order_example. Qed.
 Print Assumptions C01_insertion_order_example.
+
+(* ---- the stereo-aware weights: model of _chiral_morgan / __differentiation (Model.ChiralMorgan) ---- *)
+(* for EVERY hash function and every injective renumbering: renamed molecule, renamed registries, renamed atoms_order and the
+   iteration orders of the three stereo sets renamed give the renamed weights and the renamed trace of `_morgan` inputs *)
+Theorem C01_chiral_morgan_equivariant : forall (h : list Z -> Z) (s : Z -> Z), (forall x y, s x = s y -> x = y) ->
+  forall (g : mol) (tabs : cmtabs) (ao : labels) (ord : cmorders),
+  chiral_morgan h (ren_mol s g) (ren_cmtabs s tabs) (ren_labels s ao) (ren_cmorders s ord) = ren_cmres s (chiral_morgan h g tabs ao ord).
+Proof. exact chiral_morgan_ren. Qed.
+Print Assumptions C01_chiral_morgan_equivariant.
+
+(* from the molecule: atoms_order and _chiral_morgan of the renumbered molecule are the renumbered ones *)
+Theorem C01_chiral_weights_equivariant :
+  forall (h : list Z -> Z) (ring ring' : Z -> bool) (g : mol) (s : Z -> Z) (tabs : cmtabs) (ord : cmorders) (ao : labels),
+  wf_mol g = true -> (forall x y, s x = s y -> x = y) -> (forall n, In n (ids g) -> ring' (s n) = ring n) ->
+  atoms_order h ring g = Ok ao ->
+  atoms_order h ring' (ren_mol s g) = Ok (ren_labels s ao) /\
+  chiral_morgan h (ren_mol s g) (ren_cmtabs s tabs) (ren_labels s ao) (ren_cmorders s ord) = ren_cmres s (chiral_morgan h g tabs ao ord).
+Proof. exact chiral_weights_equivariant. Qed.
+Print Assumptions C01_chiral_weights_equivariant.
+
+Theorem C01_chiral_morgan_example :
+  wf_mol exc_g = true /\ (forall x y, exc_s x = exc_s y -> x = y) /\
+  atoms_order hash_ztuple (fun _ => false) exc_g = Ok exc_ao /\
+  chiral_morgan hash_ztuple exc_g exc_tabs exc_ao exc_ord =
+    Ok ([(6, 1); (5, 2); (3, 3); (1, 4); (2, 5); (4, 6)], [[(2, -1); (4, 1); (1, 2); (6, 2); (3, 3); (5, 3)]]) /\
+  chiral_morgan hash_ztuple (ren_mol exc_s exc_g) (ren_cmtabs exc_s exc_tabs) (ren_labels exc_s exc_ao) (ren_cmorders exc_s exc_ord) =
+    Ok ([(14, 1); (15, 2); (17, 3); (19, 4); (18, 5); (16, 6)], [[(18, -1); (16, 1); (19, 2); (14, 2); (17, 3); (15, 3)]]).
+Proof. exact chiral_morgan_example. Qed.
+Print Assumptions C01_chiral_morgan_example.
+
+(* ---- any number of components under insertion-order changes ---- *)
+(* the BFS of a later component starts on the labels of the earlier ones: labels that agree pointwise and are closed under
+   neighbours still agree (and are closed) afterwards, for two molecules with the same neighbour relation *)
+Theorem C01_bfs_next_component_pointwise : forall (g1 g2 : mol) (start : Z) (S1 S2 : list (Z * Z)),
+  (forall n, incl (nbr_ids g1 n) (ids g1)) -> (forall n, NoDup (nbr_ids g1 n)) -> (forall n m, In m (nbr_ids g1 n) -> In n (nbr_ids g1 m)) ->
+  (forall n, incl (nbr_ids g2 n) (ids g2)) -> (forall n, NoDup (nbr_ids g2 n)) -> (forall n m, In m (nbr_ids g2 n) -> In n (nbr_ids g2 m)) ->
+  In start (ids g1) -> In start (ids g2) -> (forall y x, In x (nbr_ids g1 y) <-> In x (nbr_ids g2 y)) ->
+  closed_under g1 S1 -> closed_under g2 S2 -> (forall y, zget S1 y = zget S2 y) ->
+  forall y, zget (bfs g1 (S (List.length (ids g1))) [(start, 1)] (zset S1 start 0)) y =
+            zget (bfs g2 (S (List.length (ids g2))) [(start, 1)] (zset S2 start 0)) y.
+Proof. exact next_component_pointwise. Qed.
+Print Assumptions C01_bfs_next_component_pointwise.
+
+(* DESIGN appendix A smiles_invariant_discrete for format(mol, '!s') and every option set without stereo marks / atom-map numbers,
+   under ANY renumbering and ANY insertion order of atoms, adjacency rows and neighbours, any number of components, injective
+   weights, any tie-break priorities, any registries: no single_component hypothesis *)
+Theorem C01_smiles_invariant_discrete_nostereo_insertion_order :
+  forall (g g' : mol) (s w w' tb tb' : Z -> Z) (o : opts) (tabs tabs' : stabs),
+  wf_mol g = true -> wf_mol g' = true -> (forall x y, s x = s y -> x = y) -> mol_perm (ren_mol s g) g' ->
+  inj_on (ids g) w -> (forall n, In n (ids g) -> w' (s n) = w n) -> o_stereo o = false -> o_mapping o = false ->
+  smiles_text g' w' tb' o tabs' = map_order s (smiles_text g w tb o tabs).
+Proof. exact smiles_text_perm. Qed.
+Print Assumptions C01_smiles_invariant_discrete_nostereo_insertion_order.
+
+Theorem C01_canonical_nostereo_string_any_order :
+  forall (h : list Z -> Z) (ring ring' : Z -> bool) (g g' : mol) (s tb tb' : Z -> Z) (o : opts) (tabs tabs' : stabs) (l : labels),
+  wf_mol g = true -> wf_mol g' = true -> (forall x y, s x = s y -> x = y) -> (forall n, In n (ids g) -> ring' (s n) = ring n) ->
+  mol_perm (ren_mol s g) g' -> atoms_order h ring g = Ok l -> NoDup (map snd l) -> o_stereo o = false -> o_mapping o = false ->
+  exists l', atoms_order h ring' g' = Ok l' /\
+             smiles_text g' (lbl l') tb' o tabs' = map_order s (smiles_text g (lbl l) tb o tabs).
+Proof. exact canonical_nostereo_string_any_order. Qed.
+Print Assumptions C01_canonical_nostereo_string_any_order.
+
+Theorem C01_multi_component_example :
+  wf_mol exm_g = true /\ wf_mol exm_g' = true /\ (forall x y, ext_s x = ext_s y -> x = y) /\ mol_perm (ren_mol ext_s exm_g) exm_g' /\
+  inj_on (ids exm_g) ext_w /\ (forall n, In n (ids exm_g) -> ext_w' (ext_s n) = ext_w n) /\
+  smiles_text exm_g ext_w (fun n => n) exw_o no_stabs = Ok ("CC(C)O.O"%string, [1; 2; 3; 4; 5]) /\
+  smiles_text exm_g' ext_w' (fun n => n) exw_o no_stabs = Ok ("CC(C)O.O"%string, [9; 8; 7; 6; 5]).
+Proof. exact multi_component_example. Qed.
+Print Assumptions C01_multi_component_example.
